@@ -1901,52 +1901,136 @@ def run_vector_kwargs(ctx):
             ctx.violation(key + ' raised', '{}: {}'.format(type(e).__name__, str(e)[:200]), rc)
 
 
+ALIAS_CALLABLES = [
+    ('x[k]', lambda x, k: x[k]),
+    ('x[k][...]', lambda x, k: x[k][...]),
+    ('x[k].reshape', lambda x, k: x[k].reshape(x[k].shape)),
+    ('x[k].T.T', lambda x, k: x[k].T.T),
+    ('broadcast_to', lambda x, k: np.broadcast_to(x[k], np.shape(x[k]))),
+    ('x[k] + 0', lambda x, k: x[k] + 0),        # harmless control: a fresh array
+]
+
+
+def alias_strata():
+    """(d, k, shape, shape kind) for every coordinate index k and every set of non-degenerate
+    axes containing k (the other axes have length 1); the full set is the generic shape"""
+    out = []
+    for d in (1, 2, 3):
+        for k in range(d):
+            others = [j for j in range(d) if j != k]
+            for r in range(len(others) + 1):
+                for extra in itertools.combinations(others, r):
+                    U = set(extra) | {k}
+                    shape = tuple((3 + j) if j in U else 1 for j in range(d))
+                    kind = ''.join('n' if j in U else '1' for j in range(d))
+                    out.append((d, k, shape, kind))
+    return out
+
+
+ALIAS_INPUTS = ['element', 'mesh', 'array-C', 'array-F', 'array-strided']
+ALIAS_BRANCHES = ['alias/coord-{}/{}/{}/{}'.format(k, d, kind, inp)
+                  for d, k, shape, kind in alias_strata()
+                  for inp in ALIAS_INPUTS + (['flat'] if d == 1 else [])]
+
+
 def run_alias_check(ctx):
-    """A callable that returns (a view of) its input, e.g. the identity: the sampled element /
-    array holds the right values AND owns its data — writing to it leaves the grid of the space
-    (resp. the caller's point array) untouched."""
+    """EXHAUSTIVE aliasing stratum.  A callable that returns a coordinate array itself (or a view
+    of it) is sampled on every dimension d = 1..3, for EVERY coordinate index k, on every shape
+    in which a set of axes containing k is non-degenerate and the others have length 1, from a
+    mesh grid (space.element and the wrapped function), from (d, N) point arrays (C, F, strided)
+    and from a flat array in 1d.  Required: the values are the coordinate; the result shares no
+    memory with the grid of the space, the mesh arrays or the caller's buffer; and HISTORY:
+    mutating the result in place (`e *= 0.5`) and sampling again / re-reading the caller's buffer
+    gives unchanged values, mutating the caller's buffer leaves the result unchanged."""
     import odl
     from odl.discr.discr_utils import sampling_function
-    specs = [('1d x', odl.uniform_discr(0, 2, 4), lambda x: x, 0),
-             ('1d x[0]', odl.uniform_discr(0, 2, 4), lambda x: x[0], 0),
-             ('2d (4,1) x[0]', odl.uniform_discr([0, 0], [2, 1], (4, 1)), lambda x: x[0], 0),
-             ('2d (1,3) x[1]', odl.uniform_discr([0, 0], [2, 3], (1, 3)), lambda x: x[1], 1),
-             ('3d (1,2,1) x[1]', odl.uniform_discr([0, 0, 0], [1, 2, 1], (1, 2, 1)), lambda x: x[1], 1)]
-    for name, space, f, axis in specs:
-        rc = dict(kind='alias', name=name)
-        key = 'sampling identity-like callable {} :: '.format(name)
-        ctx.case(('alias', name), None)
-        ctx.hit('sampling/alias')
-        try:
-            before = [np.array(c, copy=True) for c in space.grid.coord_vectors]
-            e = space.element(f)
-            pts = list(itertools.product(*[[Fr(float(t)) for t in c] for c in before]))
-            if flat_tokens(e.asarray(), 'float64') != [fs(pt[axis]) for pt in pts]:
-                ctx.violation(key + 'values differ from the callable at the grid points',
-                              str(flat_tokens(e.asarray(), 'float64'))[:200], rc)
-            shared = any(np.shares_memory(e.asarray(), c) for c in space.grid.coord_vectors)
-            e *= 2
-            changed = any(not np.array_equal(c, b) for c, b in zip(space.grid.coord_vectors, before))
-            if changed:   # undo, the space object may be cached by the library
-                e /= 2
-            if shared or changed:
-                ctx.violation(key + 'element aliases the sampling grid',
-                              'shares memory with space.grid.coord_vectors: {}; writing to the element '
-                              'changed the grid: {}'.format(shared, changed), rc)
-        except Exception as ex:  # noqa
-            ctx.violation(key + 'raised', '{}: {}'.format(type(ex).__name__, str(ex)[:200]), rc)
-    # point-array input of the wrapped function
-    ctx.case(('alias', 'array input'), None)
-    try:
-        sf = sampling_function(lambda x: x, odl.IntervalProd(0, 2), out_dtype='float64')
-        a = np.array([[0.5, 1.0, 1.5]])
-        r = sf(a)
-        if np.shares_memory(r, a):
-            ctx.violation('sampling identity-like callable 1d point array :: result aliases the input array',
-                          'np.shares_memory(result, input) is True', dict(kind='alias', name='array'))
-    except Exception as ex:  # noqa
-        ctx.violation('sampling identity-like callable 1d point array :: raised',
-                      '{}: {}'.format(type(ex).__name__, str(ex)[:200]), dict(kind='alias', name='array'))
+
+    def report(cls, key, what, rc):
+        limited_violation(ctx, 'alias/{}/{}/k{}'.format(cls, rc.get('input'), rc.get('k')), key, what, rc, limit=1)
+
+    for d, k, shape, kind in alias_strata():
+        for inp in ALIAS_INPUTS + (['flat'] if d == 1 else []):
+            ctx.hit('alias/coord-{}/{}/{}/{}'.format(k, d, kind, inp))
+            for cname, cf in ALIAS_CALLABLES + ([('x', lambda x, k: x)] if d == 1 else []):
+                rc = dict(kind='alias', d=d, k=k, shape=list(shape), input=inp, callable=cname)
+                key = 'sampling coordinate-returning callable {} d={} k={} shape={} input={} :: '.format(
+                    cname, d, k, shape, inp)
+                ctx.case(('alias', d, k, kind, inp, cname), None)
+
+                def f(x, cf=cf, k=k):
+                    return cf(x, k)
+                try:
+                    space = odl.uniform_discr([0] * d, [float(n) for n in shape], shape)
+                    grid0 = [np.array(c, copy=True) for c in space.grid.coord_vectors]
+                    gpts = list(itertools.product(*[[Fr(float(t)) for t in c] for c in grid0]))
+                    want = [fs(pt[k]) for pt in gpts]
+                    if inp == 'element':
+                        e = space.element(f)
+                        got = flat_tokens(e.asarray(), 'float64')
+                        shared = any(np.shares_memory(e.asarray(), c) for c in space.grid.coord_vectors)
+                        e *= 0.5
+                        moved = any(not np.array_equal(c, b) for c, b in zip(space.grid.coord_vectors, grid0))
+                        again = flat_tokens(space.element(f).asarray(), 'float64')
+                        if moved:      # undo: the grid object is shared with equal spaces
+                            e /= 0.5
+                        if got != want:
+                            report('values', key + 'values differ from the coordinate at the grid points',
+                                   'expected {} got {}'.format(want[:6], got[:6]), rc)
+                        if shared or moved or again != want:
+                            report('grid', key + 'element aliases the sampling grid',
+                                   'shares memory with space.grid.coord_vectors: {}; `e *= 0.5` moved the grid: '
+                                   '{}; sampling again gives {} instead of {}'.format(
+                                       shared, moved, again[:6], want[:6]), rc)
+                        continue
+                    sf = sampling_function(f, space.domain, out_dtype='float64')
+                    if inp == 'mesh':
+                        mesh = space.meshgrid
+                        bufs = list(mesh) + list(space.grid.coord_vectors)
+                        owner = bufs
+                        r = sf(mesh)
+                        reread = lambda: flat_tokens(sf(space.meshgrid), 'float64')  # noqa
+                    else:
+                        pts = np.array([[float(t) for t in pt] for pt in gpts]).T.reshape(d, len(gpts))
+                        if inp == 'flat':
+                            x = pts[0].copy()
+                        else:
+                            x = relayout(pts, inp.split('-')[1])
+                        owner = [x if x.base is None else x.base]
+                        bufs = [x]
+                        r = sf(x)
+                        reread = None
+                    got = flat_tokens(r, 'float64')
+                    if got != want:
+                        report('values', key + 'values differ from the coordinate at the points',
+                               'expected {} got {}'.format(want[:6], got[:6]), rc)
+                    shared = any(np.shares_memory(r, b) for b in owner)
+                    snap_bufs = [np.array(b, copy=True) for b in bufs]
+                    if r.flags.writeable:
+                        r *= 0.5
+                        r /= 0.5
+                        r *= 0.5            # net effect: halved
+                    buf_moved = any(not np.array_equal(b, sb) for b, sb in zip(bufs, snap_bufs))
+                    if buf_moved:
+                        for b, sb in zip(bufs, snap_bufs):
+                            if b.flags.writeable:
+                                b[...] = sb
+                    hist = None
+                    if reread is not None:
+                        hist = reread()
+                    else:
+                        r2 = sf(bufs[0])
+                        keep = np.array(r2, copy=True)
+                        bufs[0][...] = 0.25          # the caller reuses its point buffer
+                        if not np.array_equal(r2, keep):
+                            hist = flat_tokens(r2, 'float64')
+                        bufs[0][...] = snap_bufs[0]
+                    if shared or buf_moved or (hist is not None and hist != want):
+                        report('buffer', key + 'result aliases the caller\'s arrays',
+                               'shares memory with the input / grid: {}; writing to the result changed the '
+                               'input: {}; values after reuse of the buffer / sampling again: {}'.format(
+                                   shared, buf_moved, None if hist is None else hist[:6]), rc)
+                except Exception as ex:  # noqa
+                    report('raised', key + 'raised', '{}: {}'.format(type(ex).__name__, str(ex)[:200]), rc)
 
 
 def run_single_node_axis(ctx):
@@ -2039,7 +2123,7 @@ LAYOUT_BRANCHES = ['layout/{}/{}'.format(e, l) for e in
                    ('interp-values', 'interp-points', 'interp-out', 'resampling-x', 'resampling-out',
                     'deform-x', 'deform-disp', 'deform-out', 'sampling-points', 'sampling-out')
                    for l in ('F', 'strided')]
-EXPECTED_BRANCHES = MODEL_BRANCHES + LAYOUT_BRANCHES
+EXPECTED_BRANCHES = MODEL_BRANCHES + LAYOUT_BRANCHES + ALIAS_BRANCHES
 
 
 def regenerate(ctx):
